@@ -85,8 +85,15 @@ class Gen(object):
 
     def compound(self, indent, depth):
         r = self.rng
-        k = r.randrange(10)
-        if k <= 4:
+        k = r.randrange(11)
+        if k == 10:
+            # two alternatives of one name on ONE line (a binding, then a comprehension on the same line that may or may not rebind it):
+            # their order is decided by the column alone (found missing by seeded change C17-4: alternatives sorted by line only)
+            self.count('two-alternatives-one-line')
+            nm = r.choice(self.names)
+            self.emit(indent, r.choice(['%s = 0; r9 = [(%s := i9) for i9 in range(3)]', '%s = 0; r9 = [%s for %s in range(3)]',
+                                        '%s = 0; r9 = {%s: 1 for %s in range(3)}; s9 = {(%s := i9) for i9 in range(2)}']).replace('%s', nm))
+        elif k <= 4:
             n = r.choice([2, 2, 3, 4, 5, 6])
             self.count('if%d' % n)
             has_else = r.random() < 0.6
@@ -562,6 +569,10 @@ def run(check):
     check.trusted += ['translators/tr_perm.py (syntactic discovery of set / mapping-iteration sites, consumption tracing one level deep, '
                       'hand classification AUDIT + PINS)',
                       'harness/c17_runner.py (fresh-process runner) and CPython 3.12 as the source of real hash orders']
+    # the lookup chain every table is made of: iteration order of a merged table is a function of its parts' orders (family MDict);
+    # last, so that the streams above draw the same random numbers as before this stream existed
+    from . import mdict
+    mdict.run(check)
 
 
 def strip_root(q, root):
